@@ -25,7 +25,7 @@ input) and lenient (error_on_uninitialized=False, every program must build).
 import itertools, re, os
 from vlib import e2, farm, support
 from props import _g6_c21gen as gen
-from props._g6_common import ConfirmCtx
+from props._g6_common import ConfirmCtx, run_diff, storm_note
 
 LEVEL = 'exploration'
 ENGINE = 'E2 diffexplore'
@@ -360,7 +360,7 @@ def run(ctx):
             for fu in pt.funcs:
                 _MODOF[fu.tag] = (m, fu.name)
     cc = ConfirmCtx(ctx, _keyfn)
-    st = e2.run_diff(cc, mods, keyfn=_keyfn, reach=REACH if ctx.quick else REACH_T)
+    st = run_diff(cc, mods, keyfn=_keyfn, reach=REACH if ctx.quick else REACH_T)
 
     checked = 0
     for m in mods:
@@ -390,6 +390,7 @@ def run(ctx):
         'samples': [{'tag': f.tag, 'function': f.src, 'inputs': len(_inputs(f.radix))} for f in sample],
         'exhaustive': True,
     }
+    storm_note(cov, st)
     if checked and reads and not (0 < checked < reads * 2):
         ctx.log('WARN: every read is checked or none is: family does not separate checked/unchecked reads')
     return cov, ['programs larger than the node bound, more than two variables, loops running more than twice are not covered',
